@@ -58,8 +58,16 @@ def f1_f3_f5(prog, ctx):
                     elif (w, q) in REBIND_OK:
                         # the rebinding must be the one assignment under `q == NULL || strlen(q) == 0`
                         cfg = f.cfg
+                        # ... or under a flag that says the same (`have_name = q != NULL && *q != 0`)
+                        flags9 = set()
+                        for l9, r9, s9 in f.assignments():
+                            if r9 is not None and isinstance(l9, dict) and any(t9 in (l9.get("ct") or "") for t9 in ("_Bool", "int")):
+                                names9 = set(x.j.get("name") for x in r9.walk() if x.k == "DeclRefExpr" and x.j.get("dk") in ("param", "local"))
+                                if names9 == {q}:
+                                    flags9.add(l9["name"])
                         ok, cut = cfg.all_paths_cut(cfg.block_of(m), lambda lit, b, i: lit is not None and (
-                            (lit.kind == "truth" and lit.atom == q and not lit.pol) or ("strlen(%s)" % q in lit.atom)))
+                            (lit.kind == "truth" and lit.atom in (q, "*" + q, q + "[0]") and not lit.pol) or ("strlen(%s)" % q in lit.atom)
+                            or (lit.kind == "truth" and lit.atom in flags9 and not lit.pol)))
                         mods = [st for lhs, rhs, st, kind in query.stores(f) if render(lhs) == q]
                         if ok and cut and len(mods) == 1 and render(mods[0].children[1]) == "project":
                             ctx.ok("F1", inst, c.where, "rebinding tolerated: %s" % REBIND_OK[(w, q)])
@@ -100,11 +108,29 @@ def f1_f3_f5(prog, ctx):
 
     from sa.cond import norm_cond
 
+    def expand_flag(cnd, user):
+        """`const bool own = obj->conf_count > 0; ... own ? a : b`: a local with one definition stands for its defining expression
+        when nothing between the definition and the use can change what it was computed from"""
+        c0 = cnd.strip()
+        if c0.k != "DeclRefExpr" or c0.j.get("dk") != "local":
+            return cnd
+        defs = rd.reaching(c0.j["name"], user)
+        alld = [d for d in rd.defs if d.var == c0.j["name"]] if hasattr(rd, "defs") else defs
+        if len(defs) != 1 or len(alld) != 1 or defs[0].rhs is None:
+            return cnd
+        d = defs[0]
+        if any("conf_count" in render(lhs) for lhs, rhs, st, kind in query.stores(merged)):
+            return cnd
+        between = [c for c in merged.calls() if d.node.id < c.id < user.id and c is not user and not c.within(d.node)]
+        if between:
+            return cnd
+        return d.rhs
+
     def split(e, blk, node, others, lit=None):
         """a conditional expression contributes each arm under its own condition"""
         e2 = e.strip()
         if e2.k == "ConditionalOperator" and lit is None:
-            g = norm_cond(e2.child("cond"))
+            g = norm_cond(expand_flag(e2.child("cond"), node))
             return split(e2.child("then"), blk, node, others, g) + split(e2.child("else"), blk, node, others, g.negated())
         return [(render(e2), blk, node, others, lit)]
 
